@@ -187,9 +187,27 @@ OnlineValueFail(m, step) ==
         k == Mismatch(m.emitted, ex, d0, n, h, lo2, hi2) IN
     IF k # 0 THEN F("update.value", step, <<k, d0, h, ex>>, m.emitted) ELSE Ok
 
+\* C07 (sign) for an online monitor: wherever the concatenated returns are defined, a positive value means the
+\* specification is satisfied there and a negative one that it is violated (Dense!SatC, not via SigC)
+OnlineSignFail(m, step) ==
+  IF m.phase # "online" \/ m.emitted = <<>> \/ ~HasData(m) \/ m.dead \/ m.inst # m.phi \/ ~DenseBool(m.phi) \/ ~Monotone(m.emitted) THEN Ok
+  ELSE
+    LET d0 == D0(m) dS == D1(m) + Settle(m.phi) nn == dS - d0 + 1
+        C == CellsOf(m.fed, UsedVars(m), d0, dS) IN
+    IF SatUndef(m.phi, C, nn, m.cfg.S) THEN Ok
+    ELSE
+      LET st == SatC(m.phi, C, nn, m.cfg.S)
+          lo2 == m.emitted[1][1]
+          hi2 == m.emitted[Len(m.emitted)][1]
+          badk == {kk \in 1..(D1(m) - d0 + 1) :
+                     LET t2 == 2 * (d0 + kk - 1)
+                         v == StepAt(m.emitted, t2) IN
+                     lo2 <= t2 /\ t2 <= hi2 /\ v # NoVal /\ v # Bad /\ ((v > 0 /\ ~st[kk]) \/ (v < 0 /\ st[kk]))} IN
+      IF badk = {} THEN Ok ELSE F("update.sign", step, st, m.emitted)
+
 ApplyReset(m, e, step) ==
   LET f0 == ExcClass(TRUE, e, "reset.exc", step)
-      fv == OnlineValueFail(m, step) IN
+      fv == OnlineValueFail(m, step) \o OnlineSignFail(m, step) IN
   R(Install([m EXCEPT !.phase = "online", !.fed = [v \in m.cfg.vars |-> <<>>], !.emitted = <<>>, !.nupd = 0]), fv \o f0, 0)
 
 \* C19: a *discrete-time* object evaluated inside a dense-time case; its result (checked by C01's own trace
@@ -264,7 +282,7 @@ RECURSIVE RelFails(_, _)
 RelFails(c, i) == IF i > Len(c.rels) THEN Ok ELSE RelFail(c, c.rels[i]) \o RelFails(c, i + 1)
 
 RECURSIVE EndFails(_)
-EndFails(i) == IF i > Len(ms) THEN Ok ELSE OnlineValueFail(ms[i], 0) \o EndFails(i + 1)
+EndFails(i) == IF i > Len(ms) THEN Ok ELSE OnlineValueFail(ms[i], 0) \o OnlineSignFail(ms[i], 0) \o EndFails(i + 1)
 
 Filt(c, fs) == SelectSeq(fs, LAMBDA f : f.clause \notin SeqToSet(c.skip))
 
